@@ -1,4 +1,5 @@
 import PlzVerif.Lemmas.SchedLive
+import PlzVerif.Lemmas.SchedWake
 /-! C05: no deadlock on acyclic graphs — unless the run is over, some goroutine can take a step. -/
 namespace PlzVerif.Sched
 
@@ -49,6 +50,7 @@ theorem step_pos {s s' : St} (hp : Pos s) (h : Step c s s') : Pos s' := by
         · cases h; intro hs; have := hp hs; show 1 ≤ s.numPending + 1; omega
         · cases h; exact hp
       · cases h; exact taskDone_pos _
+      · split at h <;> first | (cases h; exact hp) | cases h
     · cases h
   | queuerAbort i =>
     simp only [fire] at h
@@ -81,6 +83,21 @@ theorem step_pos {s s' : St} (hp : Pos s) (h : Step c s s') : Pos s' := by
     · cases h
     · cases h; exact taskDone_pos _
   | stop => simp only [fire] at h; cases h; intro hs; cases hs
+  | subWait t =>
+    simp only [fire] at h
+    split at h
+    · split at h
+      · cases h; exact hp
+      · cases h
+        have := qrt_pos c hp t true
+        generalize qrt c s t true = s1 at this
+        intro hs; have := this hs; show 1 ≤ s1.numPending + 1; omega
+    · cases h
+  | cycleCheck =>
+    simp only [fire] at h
+    split at h
+    · cases h; intro hs; cases hs
+    · cases h
 
 theorem reach_pos {s : St} (h : Reach c s) : Pos s := by
   induction h with
@@ -108,7 +125,8 @@ theorem canStep_of {s : St} {a : Action} (hi : Internal a) (h : (fire c s a).isS
   | some s' => exact ⟨a, s', hi, hf⟩
 
 theorem queuerStep_some (s : St) (i : Nat) (q : Queuer)
-    (h : ∀ d r, q.ph = .waitDeps (d :: r) → s.fin d = true) : (queuerStep c s i q).isSome = true := by
+    (h : ∀ d r, q.ph = .waitDeps (d :: r) → s.fin d = true)
+    (hw : ∀ d, q.ph = .waitTarget d → s.woken d = true) : (queuerStep c s i q).isSome = true := by
   unfold queuerStep
   split
   · rfl
@@ -119,10 +137,14 @@ theorem queuerStep_some (s : St) (i : Nat) (q : Queuer)
     split <;> rfl
   · split <;> rfl
   · rfl
+  · rename_i d hph
+    rw [hw d hph]
+    rfl
 
 theorem queuer_enabled {s : St} (i : Nat) (q : Queuer) (hq : s.qs i = some q)
-    (h : ∀ d r, q.ph = .waitDeps (d :: r) → s.fin d = true) : CanStep c s :=
-  canStep_of c (a := .queuer i) trivial (by simp only [fire, hq]; exact queuerStep_some c s i q h)
+    (h : ∀ d r, q.ph = .waitDeps (d :: r) → s.fin d = true)
+    (hw : ∀ d, q.ph = .waitTarget d → s.woken d = true) : CanStep c s :=
+  canStep_of c (a := .queuer i) trivial (by simp only [fire, hq]; exact queuerStep_some c s i q h hw)
 
 /-- a worker can always take its next step -/
 theorem worker_can_step (s : St) (w : Nat) (x : Worker) (hw : s.ws w = some x) : CanStep c s := by
@@ -141,20 +163,21 @@ theorem not_ext_of_not_stopped {s : St} (h1 : Inv c s) (hs : s.stopped = false) 
 
 theorem queuer_can_step {s : St} (h1 : Inv c s) (h3 : Inv3 c s) (hs : s.stopped = false)
     (hgt : T → Nat) (hacy : ∀ t d, d ∈ c.deps t → hgt d < hgt t) :
-    ∀ k i q, s.qs i = some q → hgt q.t ≤ k → CanStep c s := by
+    ∀ k i q, s.qs i = some q → (∀ d, q.ph ≠ .waitTarget d) → hgt q.t ≤ k → CanStep c s := by
   intro k
   induction k with
   | zero =>
-    intro i q hq hk
+    intro i q hq hnw hk
     apply queuer_enabled c i q hq
-    intro d r hph
-    have hd := h3.waitSub i q (d :: r) hq hph d List.mem_cons_self
-    have := hacy q.t d hd
-    omega
+    · intro d r hph
+      have hd := h3.waitSub i q (d :: r) hq hph d List.mem_cons_self
+      have := hacy q.t d hd
+      omega
+    · intro d hph; exact absurd hph (hnw d)
   | succ k ih =>
-    intro i q hq hk
+    intro i q hq hnw hk
     by_cases hall : ∀ d r, q.ph = .waitDeps (d :: r) → s.fin d = true
-    · exact queuer_enabled c i q hq hall
+    · exact queuer_enabled c i q hq hall (fun d hph => absurd hph (hnw d))
     · -- the dependency it waits for has not finished: somebody is responsible for that one
       have ⟨d, hall⟩ := Classical.not_forall.mp hall
       have ⟨r, hall⟩ := Classical.not_forall.mp hall
@@ -175,33 +198,61 @@ theorem queuer_can_step {s : St} (h1 : Inv c s) (h3 : Inv3 c s) (hs : s.stopped 
         | some q' =>
           rw [hq'] at hl
           simp only [liveFor_some] at hl
-          exact ih (s.bq d) q' hq' (by rw [hl.1]; omega)
+          exact ih (s.bq d) q' hq'
+            (fun d' hph => by have := h1.wtNotBuilding _ _ d' hq' hph; rw [hl.2.1] at this; cases this)
+            (by rw [hl.1]; omega)
       · rcases h3.pendingHasToken (not_ext_of_not_stopped c h1 hs) d hp with hm | hw
         · exact canStep_of c (a := .take (s.tm d)) trivial (by simp [fire, hm])
         · exact worker_can_step c s _ _ hw
       · exact worker_can_step c s _ _ (h3.buildingHasWorker d hb)
 
+/-- somebody is responsible for a target that is Active, Pending or Building -/
+theorem target_progress {s : St} (h1 : Inv c s) (h3 : Inv3 c s) (hs : s.stopped = false)
+    (hgt : T → Nat) (hacy : ∀ t d, d ∈ c.deps t → hgt d < hgt t) (d : T)
+    (hcases : s.st d = .active ∨ s.st d = .pending ∨ s.st d = .building) : CanStep c s := by
+  rcases hcases with ha | hp | hb
+  · have hl := h3.activeHasQueuer (not_ext_of_not_stopped c h1 hs) d ha
+    cases hq' : s.qs (s.bq d) with
+    | none => rw [hq'] at hl; exact absurd hl (by simp)
+    | some q' =>
+      rw [hq'] at hl
+      simp only [liveFor_some] at hl
+      exact queuer_can_step c h1 h3 hs hgt hacy (hgt q'.t) (s.bq d) q' hq'
+        (fun d' hph => by have := h1.wtNotBuilding _ _ d' hq' hph; rw [hl.2.1] at this; cases this) (Nat.le_refl _)
+  · rcases h3.pendingHasToken (not_ext_of_not_stopped c h1 hs) d hp with hm | hw
+    · exact canStep_of c (a := .take (s.tm d)) trivial (by simp [fire, hm])
+    · exact worker_can_step c s _ _ hw
+  · exact worker_can_step c s _ _ (h3.buildingHasWorker d hb)
+
+/-- once the queues are closed: `plz.Run` is about to return, or a queued task / a worker can step (no assumption
+    on the graph) -/
+theorem stopped_final_or_step {s : St} (hs : s.stopped = true) : Final s ∨ CanStep c s := by
+  by_cases hc : ∀ m, s.chan m = none
+  · by_cases hw : ∀ w, s.ws w = none
+    · exact .inl ⟨hs, hc, hw⟩
+    · right
+      have ⟨w, hw'⟩ := Classical.not_forall.mp hw
+      cases hx : s.ws w with
+      | none => exact absurd hx hw'
+      | some x => exact worker_can_step c s w x hx
+  · right
+    have ⟨m, hm'⟩ := Classical.not_forall.mp hc
+    cases hx : s.chan m with
+    | none => exact absurd hx hm'
+    | some t => exact canStep_of c (a := .drop m) trivial (by simp [fire, hx, hs])
+
 /-- **No deadlock on acyclic graphs**: in every reachable state either `plz.Run` is about to return or some
-    goroutine can take a step. -/
-theorem no_deadlock {s : St} (hr : Reach c s) (hacy : Acyclic c) : Final s ∨ CanStep c s := by
+    goroutine can take a step — the goroutines waiting for a target (`WaitForBuiltTarget`) included, given that the
+    waiters of a target are signalled when it fails (`failWakes`) and that nobody waits for a target that has already
+    failed (`lateOK`); both are facts of the code (`C05_facts_ok`). -/
+theorem no_deadlock {s : St} (hr : Reach c s) (hacy : Acyclic c) (hfw : c.failWakes = true) (hlo : c.lateOK = true) :
+    Final s ∨ CanStep c s := by
   have h1 := reach_inv c hr
   have h3 := reach_inv3 c hr
+  have hW := reach_invW c hr
   obtain ⟨hgt, hacy⟩ := hacy
   cases hs : s.stopped with
-  | true =>
-    by_cases hc : ∀ m, s.chan m = none
-    · by_cases hw : ∀ w, s.ws w = none
-      · exact .inl ⟨hs, hc, hw⟩
-      · right
-        have ⟨w, hw'⟩ := Classical.not_forall.mp hw
-        cases hx : s.ws w with
-        | none => exact absurd hx hw'
-        | some x => exact worker_can_step c s w x hx
-    · right
-      have ⟨m, hm'⟩ := Classical.not_forall.mp hc
-      cases hx : s.chan m with
-      | none => exact absurd hx hm'
-      | some t => exact canStep_of c (a := .drop m) trivial (by simp [fire, hx, hs])
+  | true => exact stopped_final_or_step c hs
   | false =>
     right
     have hpos := reach_pos c hr hs
@@ -213,7 +264,25 @@ theorem no_deadlock {s : St} (hr : Reach c s) (hacy : Acyclic c) : Final s ∨ C
       by_cases hq : 1 ≤ sumTo (fun i => ind (s.qs i)) s.nextQ
       · obtain ⟨i, _, hi'⟩ := sumTo_pos hq
         obtain ⟨q, hq'⟩ := ind_pos hi'
-        exact queuer_can_step c h1 h3 hs hgt hacy (hgt q.t) i q hq' (Nat.le_refl _)
+        by_cases hwt : ∃ d, q.ph = .waitTarget d
+        · obtain ⟨d, hph⟩ := hwt
+          cases hwk : s.woken d with
+          | true =>
+            exact queuer_enabled c i q hq' (fun d' r hp => by rw [hph] at hp; cases hp)
+              (fun d' hp => by rw [hph] at hp; cases hp; exact hwk)
+          | false =>
+            obtain ⟨_, hrk⟩ := hW.wtReg i q d hq' hph
+            have hnt : (s.st d).terminal = false := by
+              cases ht : (s.st d).terminal with
+              | false => rfl
+              | true => have := hW.wtWoken hfw hlo i q d hq' hph ht; rw [hwk] at this; cases this
+            have hns := h1.notStopped d
+            have hcases : s.st d = .active ∨ s.st d = .pending ∨ s.st d = .building := by
+              revert hrk hnt hns
+              cases s.st d <;> simp [TS.rank, TS.terminal, TS.isBuilt]
+            exact target_progress c h1 h3 hs hgt hacy d hcases
+        · exact queuer_can_step c h1 h3 hs hgt hacy (hgt q.t) i q hq'
+            (fun d hph => hwt ⟨d, hph⟩) (Nat.le_refl _)
       · by_cases hm : 1 ≤ sumTo (fun i => ind (s.chan i)) s.nextM
         · obtain ⟨m, _, hm'⟩ := sumTo_pos hm
           obtain ⟨t, ht⟩ := ind_pos hm'
@@ -223,5 +292,41 @@ theorem no_deadlock {s : St} (hr : Reach c s) (hacy : Acyclic c) : Final s ∨ C
           obtain ⟨x, hx⟩ := ind_pos hw'
           exact worker_can_step c s w x hx
     · exact canStep_of c (a := .initDone) trivial (by simp [fire, hi])
+
+/-- **No deadlock on any graph, with the idle-time cycle check**: in every reachable state either `plz.Run` is about
+    to return, or some goroutine can step, or `forwardResults` has no active target left and starts the cycle check,
+    which finds the cycle and stops the build — provided failure results clear the active set (`failClears`, a fact of
+    the code).  `hcyc`: a graph in which the detector finds no cycle is acyclic (C06). -/
+theorem no_deadlock_cyclic {s : St} (hr : Reach c s) (hcyc : c.hasCycle = false → Acyclic c)
+    (hfc : c.failClears = true) (hfw : c.failWakes = true) (hlo : c.lateOK = true) :
+    Final s ∨ CanStep c s ∨ (fire c s .cycleCheck).isSome = true := by
+  cases hc : c.hasCycle with
+  | false =>
+    rcases no_deadlock c hr (hcyc hc) hfw hlo with h | h
+    · exact .inl h
+    · exact .inr (.inl h)
+  | true =>
+    cases hs : s.stopped with
+    | true =>
+      rcases stopped_final_or_step c hs with h | h
+      · exact .inl h
+      · exact .inr (.inl h)
+    | false =>
+      right
+      by_cases hcan : CanStep c s
+      · exact .inl hcan
+      · right
+        have h3 := reach_inv3 c hr
+        have hW := reach_invW c hr
+        have hemp : activeEmpty c s = true := by
+          unfold activeEmpty
+          rw [List.all_eq_true]
+          intro t _
+          cases ha : s.active t with
+          | false => rfl
+          | true =>
+            exfalso
+            exact hcan (worker_can_step c s _ _ (h3.buildingHasWorker t (hW.activeBuilding hfc t ha)))
+        simp [fire, hs, hc, hemp]
 
 end PlzVerif.Sched
